@@ -383,6 +383,9 @@ def run(repo, chk, tier):
     from .c18_copy import check_copy_isolation
 
     check_copy_isolation(repo, chk)
+    from .c18_copy import check_merge_identity
+
+    check_merge_identity(repo, chk)
     # pre-cached per-chain parts are one of the strategies: they must meet the per-chain quantities of the same chains
     from .c05_cachedkey import check_cached_key_pairing
 
